@@ -406,7 +406,8 @@ def run(ctx):
                 "stretch (inside, touching either end, the whole stretch, crossing either end, outside, two-part, one letter) "
                 "and 0-3 features of the C13 shapes (compound, origin-spanning join and extended forms, whole-length, source "
                 "types), either strand; every record read from a random origin (85%: inside the flanking structure); "
-                "shuffled argument order; non-trivial = the product inherits at least one feature")
+                "shuffled argument order; every call also run through vector.assemble as regenerated from the source and its "
+                "whole product record compared; non-trivial = the product inherits at least one feature")
     run_common(ctx, "C08", "violations")
 
 
